@@ -337,7 +337,15 @@ def gamma_arms(te, t):
             out[vm[lab]] = v
         elif vm and isinstance(lab, tuple) and lab[0] == "not":
             rest = [n for val, n in vm.items() if val not in lab[1]]
-            out[("rest", tuple(sorted(rest)))] = v
+            # a catch-all arm that matches on the same scrutinee again (one case peeled off by an `if let`,
+            # the others in a following `match`): merge its arms
+            inner = gamma_arms(te, strip(v)) if isinstance(strip(v), tuple) and strip(v) and strip(v)[0] == "gamma" and strip(v)[1] == c else None
+            if inner:
+                for k2, v2 in inner.items():
+                    if k2 in rest or (isinstance(k2, tuple) and k2[0] == "rest"):
+                        out.setdefault(k2, v2)
+            else:
+                out[("rest", tuple(sorted(rest)))] = v
         else:
             out[lab] = v
     return out
@@ -365,3 +373,22 @@ def verdict_of(errs):
 
 def errtext(errs):
     return "; ".join(e.lstrip("?") for e in errs)
+
+
+def some_payload(prog, t):
+    """X when t is the payload of Some(X) taken in a way that cannot yield anything else: `(X as Some).0`
+    (a match whose None arm diverges), X.unwrap(), X.expect(..), or X.unwrap_or_else(f) with f diverging"""
+    t = strip(t)
+    if not (isinstance(t, tuple) and t):
+        return None
+    if t[0] == "field" and isinstance(t[1], tuple) and t[1][0] == "as" and t[1][2] == "Some" and t[2] == "0":
+        return strip(t[1][1])
+    if t[0] == "call" and t[1].name in ("unwrap", "expect") and "Option" in t[1].key():
+        return strip(t[2][0])
+    if t[0] == "call" and t[1].name == "unwrap_or_else" and "Option" in t[1].key() and len(t[2]) == 2:
+        clo = strip(t[2][1])
+        if isinstance(clo, tuple) and clo[0] == "agg" and clo[1] == "closure":
+            fs = [g for g in prog.lib_fns if g.npath == clo[2]]
+            if len(fs) == 1 and not any(b["term"]["k"] == "return" for b in fs[0].blocks):
+                return strip(t[2][0])
+    return None
